@@ -16,6 +16,7 @@ import TantivyModel.Proofs.DocSet.Tree
 import TantivyModel.Proofs.DocSet.BufferedUnionScore
 import TantivyModel.Proofs.DocSet.DisjunctionScore
 import TantivyModel.Proofs.DocSet.ScoreMoves
+import TantivyModel.Proofs.DocSet.BufferedUnionScoreDanger
 import TantivyModel.Model.DocSet.Tree
 /-!
 # C13 — every DocSet is one sorted sequence under any mix of advance and seek
@@ -562,6 +563,37 @@ theorem C13_disjunction_score_path_independent (hA : Lawful A VA WA)
   obtain ⟨b1, b2⟩ := Disj.score_after_moves hA hscore hG hg hk hcs hL hmem ms2 hl2
   rw [a2 (by rw [a1]; exact hlt), b2 (by rw [b1, ← hsame]; exact hlt), a1, b1, hsame]
 
+/-- **The SUM union with its scores is lawful.** With "valid AND scoring the total of the children"
+(`BUnion.VS`) as the valid-state relation and the danger zones carrying the score invariant
+(`BUnion.WS`), every method of the buffered union — `advance`, `seek`, `seek_danger` (buffered and
+children paths, danger zones of the children included), `fill_bitset_block`, `count`, and the trait's
+default `fill_buffer` in place of the union's own (for which the statement is false) — satisfies the
+refinement contract. `G` is any total score function consistent with the children. -/
+theorem C13_union_score_lawful (hA : Lawful A VA WA) (hscore : ∀ {c l}, VA c l → VA (A.score c).2 l)
+    (g : σ → Nat → Nat) (hG : Inter.Ghost A g) (hg : ∀ c, (A.score c).1 = g c (A.doc c))
+    (G : Nat → Nat) (H : Nat) (hH : 64 ∣ H) (hH0 : 0 < H) (fx : Fix) :
+    Lawful (BUnion.dsNF A H fx) (BUnion.VS g G VA H) (BUnion.WS g G VA WA H) :=
+  BUnion.lawful_S hA hscore hG hg hH hH0 fx
+
+/-- **Score clause of the SUM union, every legal call program.** Built over valid children, after ANY
+legal program of doc / advance / seek / seek_danger sequences (as Intersection and Exclude drive
+it) / fill_bitset_block / default fill_buffer: the observations are the specification cursor's, and
+whenever the cursor is not in a danger zone the union sits on the specification's document and
+`score()` is the sum of the score functions of the children containing it. -/
+theorem C13_union_score_program (hA : Lawful A VA WA) (hscore : ∀ {c l}, VA c l → VA (A.score c).2 l)
+    (g : σ → Nat → Nat) (hG : Inter.Ghost A g) (hg : ∀ c, (A.score c).1 = g c (A.doc c))
+    (H : Nat) (hH : 64 ∣ H) (hH0 : 0 < H) (fx : Fix) (cs : List σ) (ls : List (List Nat)) (U : List Nat)
+    (hcs : All2 VA cs ls) (hU : SimpleUnion.IsUnion U ls) (prog : List Op)
+    (hl : legalProg ⟨U, none⟩ prog = true) (hnc : ∀ op ∈ prog, op ≠ Op.count) :
+    implRun (BUnion.dsNF A H fx) (BUnion.build A H true cs) prog = specRun ⟨U, none⟩ prog
+      ∧ ((specFinal ⟨U, none⟩ prog).danger = none →
+          (implFinal (BUnion.dsNF A H fx) (BUnion.build A H true cs) prog).doc
+              = Spec.doc (specFinal ⟨U, none⟩ prog).rest
+            ∧ ((implFinal (BUnion.dsNF A H fx) (BUnion.build A H true cs) prog).doc < TERMINATED →
+                ((BUnion.dsNF A H fx).score (implFinal (BUnion.dsNF A H fx) (BUnion.build A H true cs) prog)).1
+                  = BUnion.gsum g cs ls (implFinal (BUnion.dsNF A H fx) (BUnion.build A H true cs) prog).doc)) :=
+  BUnion.score_after_program hA hscore hG hg hH hH0 fx hcs hU prog hl hnc
+
 /-- score of the intersection from `Intersection::new`, after ANY legal mix of `advance` and `seek`:
 `score()` at the current document `d` is the sum of `g c d` over all its children -/
 theorem C13_intersection_score_after_moves (hA : Lawful A VA WA) (g : σ → Nat → Nat)
@@ -634,13 +666,15 @@ clause of the SUM buffered union and of Disjunction under any mix of advance / s
 (`C13_union_score_value`, `C13_union_score_path_independent`, `C13_disjunction_score_*`) and of the
 intersection.
 
-OPEN — the score clause after `seek_danger` calls of the union (the danger-zone branch hands the
-children over unvalidated; the harness's brute-force score oracle covers it), and the DisjunctionMax
-combiner (oracle-only, not modelled).
+OPEN — the DisjunctionMax combiner (oracle-only, not modelled); composition of the SCORE clause over
+whole trees (the score theorems take children whose score is a function of the document that their
+own moves never change; a union or intersection as a child satisfies that only on its valid states,
+so the child interface would have to be relativised to valid states).
 
-Model-level hypothesis kept: the children of an Intersection hold documents with
-doc + BLOCK_WINDOW ≤ TERMINATED (`Small`; needed by the block arithmetic of the dense count in the
-natural-number model; real doc ids are < 2^31 - 1 and the real arithmetic is u32).
+Hypothesis kept: the children of an Intersection hold documents with doc + BLOCK_WINDOW ≤ TERMINATED
+(`Small`). It mirrors a precondition of the real default `fill_bitset_block(min_doc, ..)`: with
+min_doc + 4096 > TERMINATED an exhausted docset gets a bit set for TERMINATED itself (the loop tests
+`doc >= horizon` only). Unreachable with real segments (doc ids that large do not occur).
 -/
 
 /-- a checked instance of the Disjunction model (a test on concrete inputs; the general statement is
@@ -799,6 +833,12 @@ example : BUnion.gsum (fun c (_ : Nat) => c.score) [Vec.init [1, 5] 2, Vec.init 
 example : let s0 := Inter.new Vec.ds false (Vec.init [1, 5, 9] 2) (Vec.init [5, 9] 3) [Vec.init [0, 5, 7, 9] 4]
     ((Inter.ds Vec.ds).score (Inter.runMoves Vec.ds s0 [.advance])).1 = 9
       ∧ Inter.doc Vec.ds (Inter.runMoves Vec.ds s0 [.seek 6]) = 9 := by decide +kernel
+example : let prog : List Op := [.seekDanger 70, .seekDanger 129, .doc]
+    let s0 := BUnion.build Vec.ds 64 true [Vec.init (List.range 130) 2, Vec.init [65, 129] 5]
+    legalProg ⟨List.range 130, none⟩ prog = true
+      ∧ (specFinal ⟨List.range 130, none⟩ prog).danger = none
+      ∧ ((BUnion.dsNF Vec.ds 64 {}).score (implFinal (BUnion.dsNF Vec.ds 64 {}) s0 prog)).1 = 7 := by
+  decide +kernel
 example : Exclude.ok [[5, 7], [9]] 1 = true ∧ Exclude.ok [[5, 7], [9]] 9 = false := by decide
 example : Vec.V (Vec.init [1, 5, 9] 2) [1, 5, 9] := ⟨rfl, by
   refine ⟨by decide, ?_⟩
